@@ -255,6 +255,10 @@ class NP:
         return self._mk(np.zeros, shape, dtype)
 
     def full(self, shape, fill_value, dtype=None, **k):
+        if _isinstance(fill_value, np.ndarray) and fill_value.ndim > 0:
+            return to_obj(np.broadcast_to(oarr(fill_value), shape).copy())
+        if _isinstance(fill_value, np.ndarray):
+            fill_value = fill_value[()]
         if has_sv(fill_value) or _isinstance(fill_value, (_float, _int, np.floating)) and not _isinstance(fill_value, bool):
             out = np.empty(shape, dtype=object)
             fv = _wrap_value(fill_value)
